@@ -1,5 +1,5 @@
 (* driver for the C03 model: one case per line
-   run <known-path-cps> <card> <msgs> <partial> <eof> <ext> <ext_at|-1> <policy> <fin> <nops> <op>* <nh> (<k-cps> <v-cps>)*
+   run <known-path-cps> <card> <msgs> <partial> <eof> <ext> <ext_at|-1> <paused0> <policy> <fin> <nops> <op>* <nh> (<k-cps> <v-cps>)*
        card   = UU|US|SU|SS          ext = none|reset|close
        fin0   = ret | grpc:<code>:<msg> | exc | timeout | streamterm | protocol | base       msg = <cps> | ~ (None)
        fin    = <fin0> | wait        policy = H | S/<fin0>
@@ -65,12 +65,13 @@ let show_verdict = function
   | VAccept t -> "accept:" ^ show_tclass t
 
 let handle = function
-  | "run" :: known :: card :: msgs :: partial :: eof :: ext :: ext_at :: policy :: fin :: nops :: rest ->
+  | "run" :: known :: card :: msgs :: partial :: eof :: ext :: ext_at :: paused0 :: policy :: fin :: nops :: rest ->
     let (ops, rest) = take (int_of_string nops) rest in
     let (_, hs) = take 1 rest in
     let e = { e_card = parse_card card; e_msgs = nat_of_int (int_of_string msgs);
               e_partial = bool_of_word partial; e_eof = bool_of_word eof; e_ext = parse_ext ext;
-              e_ext_at = (let k = int_of_string ext_at in if k < 0 then None else Some (nat_of_int k)) } in
+              e_ext_at = (let k = int_of_string ext_at in if k < 0 then None else Some (nat_of_int k));
+              e_paused0 = bool_of_word paused0 } in
     let p = { p_ops = List.map parse_op ops; p_fin = parse_fin fin; p_policy = parse_policy policy } in
     let r = run_call [cps_of_string known] (pairs hs) e p in
     let fs = (match final_status r.r_out with
